@@ -980,7 +980,9 @@ class Facts:
                             ok = False
                     ps = []
                     places(blk["t"], ps)
-                    if any(q["l"] == L and not (q["p"] and isinstance(q["p"][0], dict) and "f" in q["p"][0]) for q in ps):
+                    # (the drop of the whole value at the end of its scope is the drop of its fields: it stays where it is)
+                    if any(q["l"] == L and not (q["p"] and isinstance(q["p"][0], dict) and "f" in q["p"][0]) for q in ps) and \
+                            not (blk["t"]["k"] == "drop" and blk["t"]["p"]["l"] == L and not blk["t"]["p"]["p"]):
                         ok = False
                     if not ok:
                         break
@@ -1096,7 +1098,9 @@ class Facts:
         for path, b in self.bodies.items():
             if b.kind == "Closure" or self.canon_of(b) in anchors:
                 continue
-            if not b.vis.startswith("Restricted") or b.n > 160:
+            # (a trait method of a type that was introduced after the review — `impl From<bool> for NewEnum` — is such a piece too)
+            new_type_method = bool(b.impl_of) and getattr(self, "reviewed_adts", None) is not None and b.self_ty in self.adts and b.self_ty not in self.reviewed_adts
+            if not (b.vis.startswith("Restricted") or new_type_method) or b.n > 160:
                 continue          # (pub(crate) counts: a new crate-internal function is still a piece of reviewed code that moved)
             new[path] = b
         if not new:
